@@ -70,6 +70,9 @@ Theorem C03_legacy_executor_only_appends : forall fuel k k', Legacy.lrun_all fue
   Legacy.l_log k' = Legacy.l_log k /\ exists l, Legacy.l_events k' = Legacy.l_events k ++ l.
 Proof. intros fuel k k' E. destruct (LegacyProps.lrun_all_spec fuel k k' E) as ((A & B & _) & _). split; [exact A | exact B]. Qed.
 
+Theorem C03_legacy_log_ok : forall hs acts os, Legacy.under_legacy_core hs acts = Some os -> C03_log acts os [] = true.
+Proof. exact LegacyProps.under_legacy_core_log_ok. Qed.
+
 (* NOT proved (carried by the correspondence: the runtime model's traces, which fix the order of every log,
    are compared with the implementation's on every generated case): that two events emitted by ONE task deep
    inside nested commands keep their order on the whole way up to the core's channel.  Stating it needs the
